@@ -151,8 +151,11 @@ fn outcome_class(c: &str) -> String {
 fn eval_both(src: &[u8], printed: &str, st: &mut Stats) {
     let Ok(text) = std::str::from_utf8(src) else { return };
     let cfg = vcore::Cfg { loop_limit: Some(2000), recursion_limit: Some(64), ..vcore::Cfg::default() };
-    let a = vcore::run_case(text, &cfg);
-    let b = vcore::run_case(printed, &cfg);
+    // the source text of a function is the one thing that legitimately differs between a text and its printed form
+    // (`${ a => a }` evaluates to the function's own source): Function.prototype.toString is made constant for both runs
+    const NEUTRAL: &str = "Function.prototype.toString = function () { return \"function\" };\n";
+    let a = vcore::run_case(&format!("{NEUTRAL}{text}"), &cfg);
+    let b = vcore::run_case(&format!("{NEUTRAL}{printed}"), &cfg);
     st.evaluated += 1;
     let ca = a["completion"].as_str().unwrap_or("").to_string();
     *st.outcomes.entry(outcome_class(&ca)).or_insert(0) += 1;
